@@ -27,6 +27,21 @@ fn focus_static_then_output(o: &Op) -> bool {
     matches!(o, Op::FinishClear(_) | Op::Finish(_) | Op::DropBar(_) | Op::Tick(_) | Op::BarSuspend(1) | Op::MpSuspend | Op::MpSuspendEmpty | Op::MpPrintln)
 }
 
+/// three finished bars above a live one: every order of dropping them, with draws of the live bar in between
+fn focus_drop_orders(o: &Op) -> bool {
+    matches!(o, Op::DropBar(0) | Op::DropBar(1) | Op::DropBar(2) | Op::Tick(3) | Op::MpPrintln | Op::MpClear)
+}
+
+fn drop_orders_cfg(name: &'static str, w: usize, h: usize, tier: Tier) -> (Cfg, usize) {
+    let mut c = Cfg::base(name, w, h);
+    c.max_bars = 4;
+    c.fin_rot = 0;
+    c.msgs = vec![];
+    c.root = vec![Op::Add, Op::Add, Op::Add, Op::Add, Op::Tick(0), Op::Tick(1), Op::Tick(2), Op::Tick(3), Op::Finish(0), Op::Finish(1), Op::Finish(2)];
+    c.only = Some(focus_drop_orders);
+    (c, if tier == Tier::Quick { 5 } else { 6 })
+}
+
 /// growing and shrinking a bottom-aligned region: add, tick the newest and the first bar, remove,
 /// finish and drop the first bar
 fn focus_bottom_growth(o: &Op) -> bool {
@@ -273,6 +288,7 @@ pub fn c04_configs(tier: Tier) -> Vec<(Cfg, usize)> {
         c.msgs = vec!["m".into()];
         v.push((c, d));
     }
+    v.push(drop_orders_cfg("c04-finished-drop-orders", 20, 40, tier));
     // move-cursor mode with a single bar: a clearing finish (explicit, or the default one at drop) takes
     // the bar off the screen, a visible one leaves its final state
     for rot in [0usize, 1, 3] {
@@ -431,6 +447,8 @@ pub fn c19_configs(tier: Tier) -> Vec<(Cfg, usize)> {
         c.msgs = vec![];
         v.push((c, if tier == Tier::Quick { 3 } else { 4 }));
     }
+    // three finished bars (one of them wrapped) dropped in every order above a live one
+    v.push(drop_orders_cfg("c19-finished-drop-orders", 3, 12, tier));
     // a terminal that does not report its height counts as 20 rows high: eleven two-line bars do not all fit
     let mut c = Cfg::base("c19-default-height", 12, 20);
     c.default_height = true;
@@ -537,6 +555,8 @@ pub fn c02_run(t: Tier, s: Shard, st: &mut Stats) {
     run_cfgs(c02_configs(t), s, st);
     // members across a change of the draw target (two terminals)
     crate::c03x::run(t, s, st, crate::c03x::Clause::Bars);
+    // bars handed from one MultiProgress to another
+    crate::c02y::run(t, s, st, "C02");
 }
 pub fn c03_run(t: Tier, s: Shard, st: &mut Stats) {
     run_cfgs(c03_configs(t), s, st);
@@ -551,6 +571,7 @@ pub fn c04_run(t: Tier, s: Shard, st: &mut Stats) {
     crate::c04s::run(t, s, st);
     // visibly finished bars across a change of the draw target (two terminals)
     crate::c03x::run(t, s, st, crate::c03x::Clause::Finished);
+    crate::c02y::run(t, s, st, "C04");
 }
 pub fn c19_run(t: Tier, s: Shard, st: &mut Stats) {
     run_cfgs(c19_configs(t), s, st)
@@ -599,6 +620,9 @@ pub fn c02_replay(v: &Value) -> i32 {
     if let Some(c) = crate::c03x::replay(v, "C02") {
         return c;
     }
+    if let Some(c) = crate::c02y::replay(v, "C02") {
+        return c;
+    }
     replay_any(v, "C02")
 }
 pub fn c03_replay(v: &Value) -> i32 {
@@ -612,6 +636,9 @@ pub fn c04_replay(v: &Value) -> i32 {
         return c;
     }
     if let Some(c) = crate::c03x::replay(v, "C04") {
+        return c;
+    }
+    if let Some(c) = crate::c02y::replay(v, "C04") {
         return c;
     }
     replay_any(v, "C04")
